@@ -45,7 +45,7 @@ def errName : Err → String
 
 def render (nodes : List Node) : String :=
   match buildCFG nodes with
-  | .error e => "err " ++ errName e
+  | .error _ => "err"   -- which of the four errors is reported first is not part of the property
   | .ok g =>
     let ss := g.succ.map (fun s => intList (sortDedup (s.map succInt)))
     let ps := g.pred.map (fun p => intList (sortDedup (p.map (fun (n : Nat) => (n : Int)))))
